@@ -6,6 +6,7 @@ import (
 	"net/url"
 	"strconv"
 	"strings"
+	"time"
 
 	"github.com/smallnest/rpcx/client"
 
@@ -241,8 +242,112 @@ func c12Run(o *common.Out, id string, kind string, ops []c12op) {
 	o.Case(id, model.String(), strings.Join(obs, " "), nontrivial)
 }
 
+// the same histories through a discovery client: updates are published by the discovery and reach the selector
+// through XClient's watch loop; selections are made by the client's own selector.  Oracle only (the slice order the
+// client's selector built is not visible from outside): every window of sum-of-weights selections is proportional.
+func c12RunX(o *common.Out, id string, kind string, ops []c12op) {
+	abstract := "x|" + c12Encode(kind, ops)
+	o.Begin(id, abstract)
+	mode := client.RoundRobin
+	if kind == "wrr" {
+		mode = client.WeightedRoundRobin
+	}
+	pairsOf := func(srv [][2]string) []*client.KVPair {
+		var ps []*client.KVPair
+		for _, s := range srv {
+			ps = append(ps, &client.KVPair{Key: "vsrv@" + s[0], Value: s[1]})
+		}
+		return ps
+	}
+	var d *client.MultipleServersDiscovery
+	var xc client.XClient
+	var cur map[string]string
+	nontrivial := false
+	for _, op := range ops {
+		if op.update {
+			want := map[string]string{}
+			for _, s := range op.servers {
+				want["vsrv@"+s[0]] = s[1]
+			}
+			cur = want
+			if xc == nil {
+				d, _ = client.NewMultipleServersDiscovery(pairsOf(op.servers))
+				opt := client.DefaultOption
+				opt.Heartbeat = false
+				xc = client.NewXClient("p", client.Failfast, mode, d, opt)
+				defer xc.Close()
+			} else {
+				d.Update(pairsOf(op.servers))
+			}
+			// the watch loop applies the update asynchronously: wait until the client's server set is the published one
+			deadline := time.Now().Add(3 * time.Second)
+			for time.Now().Before(deadline) {
+				got := client.VerifXClientServers(xc)
+				same := len(got) == len(want)
+				for k, v := range want {
+					if gv, ok := got[k]; !ok || gv != v {
+						same = false
+					}
+				}
+				if same {
+					break
+				}
+				time.Sleep(200 * time.Microsecond)
+			}
+			continue
+		}
+		if xc == nil {
+			continue
+		}
+		var run []string
+		for i := 0; i < op.selects; i++ {
+			run = append(run, client.VerifXClientSelect(xc, "p", "m", nil))
+		}
+		W, n := 0, len(cur)
+		for _, meta := range cur {
+			if kind == "wrr" {
+				W += effWeight(meta)
+			} else {
+				W++
+			}
+		}
+		if W == 0 || n < 2 || len(run) < W {
+			continue
+		}
+		nontrivial = true
+		for off := 0; off+W <= len(run); off++ {
+			seen := map[string]int{}
+			for _, r := range run[off : off+W] {
+				seen[r]++
+			}
+			bad := false
+			for name, meta := range cur {
+				w := 1
+				if kind == "wrr" {
+					w = effWeight(meta)
+				}
+				if seen[name] != w {
+					o.Fail(id, "xclient-window", fmt.Sprintf("through XClient, after the update was applied: window@%d of %d: %s (weight %d) picked %d times", off, W, name, w, seen[name]), abstract)
+					bad = true
+					break
+				}
+			}
+			if bad {
+				break
+			}
+		}
+	}
+	o.Count("via-xclient-" + kind)
+	o.ImplOnly(id, abstract, nontrivial)
+}
+
 func runC12(r *common.Rand, tier string, o *common.Out, replay string) {
 	if replay != "" {
+		if strings.HasPrefix(replay, "x|") {
+			kind, ops := c12Decode(replay[2:])
+			c12RunX(o, "replay", kind, ops)
+			return
+		}
 		kind, ops := c12Decode(replay)
 		c12Run(o, "replay", kind, ops)
 		return
@@ -335,5 +440,14 @@ func runC12(r *common.Rand, tier string, o *common.Out, replay string) {
 		}
 		c12Run(o, next(), kind, ops)
 		o.Count("random-history")
+		if h%4 == 0 {
+			c12RunX(o, next(), kind, ops)
+		}
+	}
+	// weight-only and membership-only updates through the discovery client
+	for i := 0; i < 12; i++ {
+		a := [][2]string{{"a", fmt.Sprintf("weight=%d", 1+i%4)}, {"b", "weight=2"}, {"c", fmt.Sprintf("weight=%d", 1+(i/4))}}
+		b := [][2]string{{"a", fmt.Sprintf("weight=%d", 1+(i+1)%4)}, {"b", "weight=2"}, {"c", fmt.Sprintf("weight=%d", 4-(i/4))}}
+		c12RunX(o, next(), "wrr", []c12op{{update: true, servers: a}, {selects: 9}, {update: true, servers: b}, {selects: 30}})
 	}
 }
